@@ -430,6 +430,15 @@ func (r *Rig) Exec(idx int, st *Step, prev *Step) *Drift {
 		cmd += " " + item + " (" + flagText(fl) + ")"
 		res = s.c.Cmd(cmd)
 		r.logf("[%s] %s -> %s %s", s.name, cmd, res.Status, res.Text)
+	case "Refused":
+		cmd := "STORE 1 +FLAGS (\\Seen)" // in a read-only selection
+		cmdKind = "Store"
+		if st.ArgStr(0) == "FetchNoPart" {
+			cmd = "FETCH 1 (BODY.PEEK[7.1])"
+			cmdKind = "Fetch"
+		}
+		res = s.c.Cmd(cmd)
+		r.logf("[%s] %s -> %s %s", s.name, cmd, res.Status, res.Text)
 	case "Expunge":
 		res = s.c.Cmd("EXPUNGE")
 		r.logf("[%s] EXPUNGE -> %s", s.name, res.Status)
@@ -553,7 +562,7 @@ func (r *Rig) Exec(idx int, st *Step, prev *Step) *Drift {
 			}
 		}
 		// C05: FETCH/STORE that held back removals say so
-		if st.Act == "Fetch" || st.Act == "FetchBody" || st.Act == "Store" {
+		if (st.Act == "Fetch" || st.Act == "FetchBody" || st.Act == "Store") && res.Status == "OK" {
 			has := strings.Contains(res.Text, "EXPUNGEISSUED")
 			if has != st.Expunging[st.S] {
 				r.find("C05", "C05/expungeissued", fmt.Sprintf("step %d %s: tagged reply %q, pending removals per specification: %v", idx, st.Describe(), res.Text, st.Expunging[st.S]), idx)
@@ -1056,6 +1065,80 @@ func (r *Rig) Finish(last *Step, idx int) {
 	}
 }
 
+// postDriftProbe evaluates C01's and C02's own predicates on the real server after it has left the model:
+// client mirror vs FETCH 1:* in every session, then exact drain, NOOP and comparison with a brand-new session.
+// Taints are those of the last step that still conformed.
+func (r *Rig) postDriftProbe(idx int, st *Step, prev *Step) {
+	ref := prev
+	if ref == nil {
+		ref = st
+	}
+	names := make([]string, 0, len(r.sess))
+	for n := range r.sess {
+		names = append(names, n)
+	}
+	sort.Strings(names)
+	// drain: deliver everything that is queued, to every session
+	for round := 0; round < 200; round++ {
+		progressed := false
+		for _, name := range names {
+			s := r.sess[name]
+			if r.gate.Pending(s.id) > 0 {
+				if _, _, err := r.gate.Deliver(s.id); err != nil {
+					return
+				}
+				progressed = true
+			}
+		}
+		if !progressed {
+			break
+		}
+	}
+	views := map[string][]Entry{}
+	for _, name := range names {
+		s := r.sess[name]
+		if s.box == "" {
+			continue
+		}
+		res := s.c.Cmd("NOOP")
+		if res.Status != "OK" {
+			continue
+		}
+		r.applyToMirror(s, ref, idx, res.Untagged, "Noop")
+		before := append([]mentry{}, s.mirror...)
+		res = s.c.Cmd("FETCH 1:* (UID FLAGS)")
+		var got []Entry
+		if res.Status == "OK" {
+			r.probeAgainstMirror(idx, ref, s, before, res)
+			evs := wire.Events(res.Untagged)
+			sort.SliceStable(evs, func(i, j int) bool { return evs[i].N < evs[j].N })
+			for _, e := range evs {
+				if e.Kind == "FETCH" && e.UID != 0 {
+					got = append(got, Entry{UID: e.UID, F: normFlags(e.Flags)})
+				}
+			}
+		} else if len(before) != 0 {
+			r.find("C01", r.taintKey(ref, name, "F13", "C01/count"), fmt.Sprintf("client of %s counts %d messages, FETCH 1:* answered %s", name, len(before), res.Status), idx)
+		}
+		want, ok := views[s.box]
+		if !ok {
+			v, _, err := r.OracleView(s.box)
+			if err != nil {
+				continue
+			}
+			views[s.box], want = v, v
+		}
+		same := len(got) == len(want)
+		for i := 0; same && i < len(got); i++ {
+			same = got[i].UID == want[i].UID && sameFlags(got[i].F, want[i].F)
+		}
+		if !same {
+			key := r.anyTaintKey(ref, name, []string{"F1", "F14", "F15"}, "C02/diverged")
+			r.find("C02", key, fmt.Sprintf("(after the server left the model at step %d) at quiescence session %s shows %s of %s, a fresh session shows %s", idx, name, entriesView(got), s.box, entriesView(want)), idx)
+		}
+	}
+}
+
 // Run replays a whole behaviour.
 func (r *Rig) Run(t *Trace) *Report {
 	var prev *Step
@@ -1064,6 +1147,12 @@ func (r *Rig) Run(t *Trace) *Report {
 		if d := r.Exec(i+1, st, prev); d != nil {
 			r.rep.Drift = d
 			r.rep.Steps = i
+			switch d.Kind {
+			case "mirror", "snapshot", "responders", "queue", "filter", "status", "uid", "content", "ack":
+				// the real server left the model: the model can no longer predict, but the properties' own
+				// predicates can still be evaluated on the real server
+				r.postDriftProbe(i+1, st, prev)
+			}
 			return r.rep
 		}
 		prev = st
